@@ -1538,11 +1538,10 @@ func RunHist(r *Run, steps int) *Violation {
 // replay. If any outstanding delivery's deadline lies inside the coming window the clock is
 // moved just past it, so that no operation ever straddles a deadline at microsecond distance.
 func (r *Run) nudge(window time.Duration) {
-	conn, err := sql.Open("sqlite3", "file:"+r.W.file+".sqlite3?mode=ro&_busy_timeout=10000")
+	conn, err := r.W.ro()
 	if err != nil {
 		return
 	}
-	defer conn.Close()
 	for i := 0; i < 8; i++ {
 		now := time.Now()
 		rows, err := conn.Query("SELECT attempt_at, expires_at FROM deliveries WHERE completed_at IS NULL")
